@@ -88,6 +88,7 @@ class Ctx(object):
 
     # -- forking ---------------------------------------------------------
     def _fresh_run(self, prefix):
+        self.run_id = getattr(self, "run_id", 0) + 1
         self.prefix = list(prefix)
         self.pos = 0
         self.pc = []
